@@ -167,6 +167,15 @@ macro_rules! tweedie_for {
                 let ypos = y.column(0).mapv(|v| (v * 0.2).exp());
                 (cast2(&x), cast1(&ypos))
             }
+            /// targets inside (0, 1) for the logit link
+            fn data_for(p: &TweedieRegressorParams<F>) -> (Array2<F>, Array1<F>) {
+                let (x, y) = data();
+                if format!("{:?}", p).contains("Logit") {
+                    (x, y.mapv(|v| v / (1.0 + v)))
+                } else {
+                    (x, y)
+                }
+            }
             fn qpool(x: &Array2<F>) -> Array2<F> {
                 // far points scaled down: exp() of the log link overflows at +-100, which is not C19's subject
                 pool::<F>(2, Some(x)).mapv(|v| if v.abs() > 50.0 { v / 100.0 } else { v })
@@ -182,10 +191,14 @@ macro_rules! tweedie_for {
                     ("poisson_log_alpha0.1", TweedieRegressor::params().power(1.0).alpha(0.1)),
                     ("gamma_explicit_log_no_intercept", TweedieRegressor::params().power(2.0).link(Link::Log).fit_intercept(false).max_iter(50).tol(1e-5)),
                     ("normal_identity", TweedieRegressor::params().power(0.0).link(Link::Identity).alpha(0.1 + 0.2)),
+                    // every link variant incl. Logit (targets rescaled into (0, 1) by `data_for`), boundary numbers
+                    ("logit_link_alpha0", TweedieRegressor::params().power(0.0).link(Link::Logit).alpha(0.0)),
+                    ("inverse_gaussian_power3_one_iteration", TweedieRegressor::params().power(3.0).max_iter(1).tol(0.0)),
+                    ("max_iter0_huge_alpha", TweedieRegressor::params().power(1.0).max_iter(0).alpha(1e30).tol(1e30)),
                 ]
             }
             pub fn params(o: &mut Out, p: TweedieRegressorParams<F>) {
-                let (x, y) = data();
+                let (x, y) = data_for(&p);
                 let ds = Dataset::new(x.clone(), y);
                 let q = qpool(&x);
                 let v = o.need("check", p.check());
@@ -201,7 +214,7 @@ macro_rules! tweedie_for {
                 round_trip(o, &Spec::full(&obs), &v);
             }
             pub fn model(o: &mut Out, p: TweedieRegressorParams<F>) {
-                let (x, y) = data();
+                let (x, y) = data_for(&p);
                 let ds = Dataset::new(x.clone(), y);
                 let m = o.need("tweedie fit", p.fit(&ds));
                 let q = qpool(&x);
@@ -226,7 +239,7 @@ fn tweedie_params(r: &mut Runner) {
 fn tweedie_model(r: &mut Runner) {
     // the link is a private field that only shows in predict: log link (default for power 1),
     // identity link and an explicit log link on a power-2 model are all instantiated
-    for (name, p) in tw64::points() {
+    for (name, p) in tw64::points().into_iter().take(5) {
         r.inst(&format!("f64/{}", name), |o| tw64::model(o, p));
     }
     for (name, p) in tw32::points().into_iter().skip(1).take(2) {
@@ -308,7 +321,11 @@ fn enet_params(r: &mut Runner) {
         let obs = |v: &ElasticNetValidParams<F>| {
             let mut ob = Ob::new();
             ob.f1("penalty", v.penalty()).f1("l1_ratio", v.l1_ratio()).bools("with_intercept", [v.with_intercept()]).u1("max_iterations", v.max_iterations() as usize).f1("tolerance", v.tolerance());
-            ob.sub("refit", enet_obs(&v.fit(&ds).expect("enet refit"), &q));
+            match lvmc_core::guarded(|| v.fit(&ds).map(|m| enet_obs(&m, &q)).map_err(|e| e.to_string())) {
+                Ok(Ok(x)) => ob.sub("refit", x),
+                Ok(Err(e)) => ob.st("refit.error", e),
+                Err(p) => ob.st("refit.panic", p),
+            };
             ob.done()
         };
         round_trip(o, &Spec::full(&obs), &v);
@@ -321,7 +338,11 @@ fn enet_params(r: &mut Runner) {
         let obs = |v: &MultiTaskElasticNetValidParams<F>| {
             let mut ob = Ob::new();
             ob.f1("penalty", v.penalty()).f1("l1_ratio", v.l1_ratio()).bools("with_intercept", [v.with_intercept()]).u1("max_iterations", v.max_iterations() as usize).f1("tolerance", v.tolerance());
-            ob.sub("refit", mt_enet_obs(&v.fit(&ds).expect("mt enet refit"), &q));
+            match lvmc_core::guarded(|| v.fit(&ds).map(|m| mt_enet_obs(&m, &q)).map_err(|e| e.to_string())) {
+                Ok(Ok(x)) => ob.sub("refit", x),
+                Ok(Err(e)) => ob.st("refit.error", e),
+                Err(p) => ob.st("refit.panic", p),
+            };
             ob.done()
         };
         round_trip(o, &Spec::full(&obs), &v);
@@ -330,13 +351,38 @@ fn enet_params(r: &mut Runner) {
     r.inst("single/f64/lasso_penalty0.3_no_intercept", |o| single::<f64>(o, ElasticNet::lasso().penalty(0.3).with_intercept(false).max_iterations(200)));
     r.inst("single/f64/ridge_tol", |o| single::<f64>(o, ElasticNet::ridge().penalty(0.1 + 0.2).tolerance(1e-6)));
     r.inst("single/f32/l1_ratio0.7", |o| single::<f32>(o, ElasticNet::params().l1_ratio(0.7).penalty(0.05)));
+    r.inst("single/f64/all_zero(penalty0,l1_0,tol0,iter1)", |o| single::<f64>(o, ElasticNet::params().penalty(0.0).l1_ratio(0.0).tolerance(0.0).max_iterations(1).with_intercept(false)));
+    r.inst("single/f64/extremes(l1_1,iter_max,penalty1e30)", |o| single::<f64>(o, ElasticNet::params().penalty(1e30).l1_ratio(1.0).tolerance(1e30).max_iterations(u32::MAX)));
+    r.inst("multi/f64/all_zero(penalty0,l1_0,tol0,iter1)", |o| multi::<f64>(o, MultiTaskElasticNet::params().penalty(0.0).l1_ratio(0.0).tolerance(0.0).max_iterations(1).with_intercept(false)));
+    r.inst("multi/f64/extremes(l1_1,iter1)", |o| multi::<f64>(o, MultiTaskElasticNet::params().penalty(1e30).l1_ratio(1.0).tolerance(1e30).max_iterations(1)));
     r.inst("multi/f64/default", |o| multi::<f64>(o, MultiTaskElasticNet::params()));
     r.inst("multi/f64/penalty0.2_l1_0.3", |o| multi::<f64>(o, MultiTaskElasticNet::params().penalty(0.2).l1_ratio(0.3).max_iterations(300)));
     r.inst("multi/f32/lasso", |o| multi::<f32>(o, MultiTaskElasticNet::lasso().penalty(0.1)));
 }
 
+/// which state of the private `variance` field a model is in, read through z_score()
+fn variance_kind<T>(r: &std::result::Result<T, linfa_elasticnet::ElasticNetError>) -> String {
+    match r {
+        Ok(_) => "Ok".to_string(),
+        Err(e) => format!("Err({:?})", e),
+    }
+}
+
 fn enet_model(r: &mut Runner) {
     use linfa_elasticnet::ElasticNet;
+    fn go_zero_column<F: SF>(o: &mut Out) {
+        // more samples than features, but an all-zero feature column: X^T X is exactly singular
+        let (mut x, y) = regression::<F>(30, 3, 1, 24);
+        x.column_mut(1).fill(F::zero());
+        let ds = Dataset::new(x.clone(), y.column(0).to_owned());
+        let m = o.need("enet fit", ElasticNet::params().penalty(F::cast(0.2)).fit(&ds));
+        if variance_kind(&m.z_score()) != "Err(IllConditioned)" {
+            o.machinery(&format!("instance meant to carry Err(IllConditioned) carries {}", variance_kind(&m.z_score())));
+        }
+        let q = pool::<F>(3, Some(&x));
+        let obs = |m: &ElasticNet<F>| enet_obs(m, &q);
+        round_trip(o, &Spec::plain(&obs), &m);
+    }
     fn go<F: SF>(o: &mut Out, n: usize, p: usize, collinear: bool, params: linfa_elasticnet::ElasticNetParams<F>) {
         let (mut x, y) = regression::<F>(n, p, 1, 24);
         if collinear {
@@ -353,12 +399,31 @@ fn enet_model(r: &mut Runner) {
     r.inst("f64/variance_ok", |o| go::<f64>(o, 50, 4, false, ElasticNet::params().penalty(0.1).l1_ratio(0.5)));
     r.inst("f64/variance_err_not_enough_samples", |o| go::<f64>(o, 4, 4, false, ElasticNet::params().penalty(0.1)));
     r.inst("f64/collinear_columns", |o| go::<f64>(o, 30, 3, true, ElasticNet::params().penalty(0.2)));
+    // one fitted instance per reachable state of `variance`: Ok, Err(NotEnoughSamples), Err(IllConditioned)
+    r.inst("f64/variance_err_ill_conditioned(zero column)", |o| go_zero_column::<f64>(o));
+    r.inst("f32/variance_err_ill_conditioned(zero column)", |o| go_zero_column::<f32>(o));
     r.inst("f64/no_intercept_lasso", |o| go::<f64>(o, 50, 4, false, ElasticNet::lasso().penalty(0.3).with_intercept(false)));
     r.inst("f32/variance_ok", |o| go::<f32>(o, 50, 3, false, ElasticNet::params().penalty(0.1).l1_ratio(0.5)));
 }
 
 fn mt_enet_model(r: &mut Runner) {
     use linfa_elasticnet::MultiTaskElasticNet;
+    fn go_zero_column<F: SF>(o: &mut Out) {
+        let (mut x, y) = regression::<F>(30, 4, 2, 25);
+        x.column_mut(2).fill(F::zero());
+        let ds = Dataset::new(x.clone(), y);
+        let m = o.need("mt enet fit", MultiTaskElasticNet::params().penalty(F::cast(0.1)).l1_ratio(F::cast(0.5)).fit(&ds));
+        let kind = match lvmc_core::guarded(|| variance_kind(&m.confidence_95th())) {
+            Ok(k) => k,
+            Err(_) => "panic".to_string(),
+        };
+        if kind != "Err(IllConditioned)" {
+            o.machinery(&format!("instance meant to carry Err(IllConditioned) carries {}", kind));
+        }
+        let q = pool::<F>(4, Some(&x));
+        let obs = |m: &MultiTaskElasticNet<F>| mt_enet_obs(m, &q);
+        round_trip(o, &Spec::plain(&obs), &m);
+    }
     fn go<F: SF>(o: &mut Out, n: usize, params: linfa_elasticnet::MultiTaskElasticNetParams<F>) {
         let (x, y) = regression::<F>(n, 4, 2, 25);
         let ds = Dataset::new(x.clone(), y);
@@ -370,6 +435,7 @@ fn mt_enet_model(r: &mut Runner) {
     r.inst("f64/variance_ok", |o| go::<f64>(o, 50, MultiTaskElasticNet::params().penalty(0.1).l1_ratio(0.5)));
     r.inst("f64/variance_err_not_enough_samples", |o| go::<f64>(o, 3, MultiTaskElasticNet::params().penalty(0.1)));
     r.inst("f32/variance_ok", |o| go::<f32>(o, 50, MultiTaskElasticNet::params().penalty(0.2).l1_ratio(0.9)));
+    r.inst("f64/variance_err_ill_conditioned(zero column)", |o| go_zero_column::<f64>(o));
 }
 
 // ---------------------------------------------------------------------------------------------
@@ -457,6 +523,8 @@ macro_rules! logistic_for {
                     ("default", LogisticRegression::default()),
                     ("alpha0.3_no_intercept", LogisticRegression::default().alpha(0.1 + 0.2).with_intercept(false).max_iterations(30)),
                     ("initial_params_gradtol", LogisticRegression::default().gradient_tolerance(1e-3).initial_params(ndarray::array![0.5, -0.25, 0.125])),
+                    ("alpha0_iter0_zero_initial_params", LogisticRegression::default().alpha(0.0).max_iterations(0).initial_params(ndarray::array![0.0, 0.0, 0.0])),
+                    ("alpha1e30_iter1_tiny_gradtol", LogisticRegression::default().alpha(1e30).max_iterations(1).gradient_tolerance(F::MIN_POSITIVE)),
                     ("invalid_alpha", LogisticRegression::default().alpha(-1.0)),
                     ("invalid_initial_params_nan", LogisticRegression::default().initial_params(ndarray::array![0.5, F::NAN, 0.0])),
                 ]
@@ -467,6 +535,7 @@ macro_rules! logistic_for {
                     ("default", MultiLogisticRegression::default()),
                     ("alpha2_iter20", MultiLogisticRegression::default().alpha(2.0).max_iterations(20)),
                     ("initial_params", MultiLogisticRegression::default().initial_params(Array2::from_shape_fn((3, 3), |(i, j)| (0.1 * i as f64 - 0.2 * j as f64) as F))),
+                    ("alpha0_iter0_no_intercept_zero_initial_params", MultiLogisticRegression::default().alpha(0.0).max_iterations(0).with_intercept(false).initial_params(Array2::zeros((2, 3)))),
                     ("invalid_gradient_tolerance", MultiLogisticRegression::default().gradient_tolerance(0.0)),
                 ]
             }
@@ -613,13 +682,13 @@ fn logistic_params(r: &mut Runner) {
 }
 
 fn logistic_valid_params(r: &mut Runner) {
-    for (n, p) in lg64::bin_points().into_iter().take(3) {
+    for (n, p) in lg64::bin_points().into_iter().filter(|(n, _)| !n.starts_with("invalid")) {
         r.inst(&format!("binary/f64/{}", n), |o| lg64::valid_bin(o, p));
     }
     for (n, p) in lg32::bin_points().into_iter().take(2) {
         r.inst(&format!("binary/f32/{}", n), |o| lg32::valid_bin(o, p));
     }
-    for (n, p) in lg64::multi_points().into_iter().take(3) {
+    for (n, p) in lg64::multi_points().into_iter().filter(|(n, _)| !n.starts_with("invalid")) {
         r.inst(&format!("multi/f64/{}", n), |o| lg64::valid_multi(o, p));
     }
 }
@@ -670,7 +739,9 @@ fn ftrl_points<F: Float>() -> Vec<(&'static str, FtP<F>)> {
         ("default", Ftrl::params_with_rng(rng(42))),
         ("nondefault1", Ftrl::params_with_rng(rng(1)).alpha(F::cast(0.1)).beta(F::cast(1.0)).l1_ratio(F::cast(0.2)).l2_ratio(F::cast(0.3))),
         ("nondefault2", Ftrl::params_with_rng(rng(2)).alpha(F::cast(0.1 + 0.2)).beta(F::cast(0.5)).l1_ratio(F::cast(0.0)).l2_ratio(F::cast(1.0))),
-        ("invalid_alpha", Ftrl::params_with_rng(rng(3)).alpha(F::cast(0.0))),
+        ("all_zero(alpha0,beta0,l1_0,l2_0)", Ftrl::params_with_rng(rng(3)).alpha(F::cast(0.0)).beta(F::cast(0.0)).l1_ratio(F::cast(0.0)).l2_ratio(F::cast(0.0))),
+        ("extremes(l1_1,l2_1,alpha1e30)", Ftrl::params_with_rng(rng(4)).alpha(F::cast(1e30)).beta(F::cast(1e30)).l1_ratio(F::cast(1.0)).l2_ratio(F::cast(1.0))),
+        ("invalid_alpha", Ftrl::params_with_rng(rng(3)).alpha(F::cast(-1.0))),
         ("invalid_l1_ratio", Ftrl::params_with_rng(rng(3)).l1_ratio(F::cast(1.5))),
     ]
 }
@@ -707,7 +778,7 @@ fn ftrl_params(r: &mut Runner) {
     for (n, p) in ftrl_points::<f64>() {
         r.inst(&format!("f64/{}", n), |o| go(o, p));
     }
-    for (n, p) in ftrl_points::<f32>().into_iter().take(4) {
+    for (n, p) in ftrl_points::<f32>().into_iter().take(3) {
         r.inst(&format!("f32/{}", n), |o| go(o, p));
     }
 }
@@ -721,10 +792,10 @@ fn ftrl_valid_params(r: &mut Runner) {
         let obs = |v: &FtV<F>| ftrl_valid_obs(v, &ds, &q);
         round_trip(o, &Spec::full(&obs), &v);
     }
-    for (n, p) in ftrl_points::<f64>().into_iter().take(3) {
+    for (n, p) in ftrl_points::<f64>().into_iter().filter(|(n, _)| !n.starts_with("invalid")) {
         r.inst(&format!("f64/{}", n), |o| go(o, p));
     }
-    for (n, p) in ftrl_points::<f32>().into_iter().take(3) {
+    for (n, p) in ftrl_points::<f32>().into_iter().filter(|(n, _)| !n.starts_with("invalid")) {
         r.inst(&format!("f32/{}", n), |o| go(o, p));
     }
 }
@@ -795,7 +866,7 @@ pls_entry!(pls_cca, PlsCca);
 
 fn pls_svd_params(r: &mut Runner) {
     use linfa_pls::{PlsSvd, PlsSvdParams};
-    for (name, p) in [("default", PlsSvdParams::default()), ("1comp", PlsSvd::<f64>::params(1)), ("2comp_unscaled", PlsSvdParams::new(2).scale(false)), ("invalid_too_many_components", PlsSvdParams::new(9))] {
+    for (name, p) in [("default", PlsSvdParams::default()), ("1comp", PlsSvd::<f64>::params(1)), ("2comp_unscaled", PlsSvdParams::new(2).scale(false)), ("invalid_too_many_components", PlsSvdParams::new(9)), ("invalid_zero_components_unscaled", PlsSvdParams::new(0).scale(false)), ("components_huge", PlsSvdParams::new(usize::MAX))] {
         r.inst(name, |o| {
             let (x, y) = regression::<f64>(40, 4, 2, 27);
             let (x32, y32) = regression::<f32>(40, 4, 2, 27);
@@ -836,7 +907,7 @@ fn pca_obs(m: &linfa_reduction::Pca<f64>, x: &Array2<f64>, q: &Array2<f64>) -> O
 
 fn pca_params(r: &mut Runner) {
     use linfa_reduction::{Pca, PcaParams};
-    for (name, p) in [("k2", Pca::params(2)), ("k1_whiten", Pca::params(1).whiten(true)), ("k3_no_whiten", Pca::params(3).whiten(false)), ("k0", Pca::params(0))] {
+    for (name, p) in [("k2", Pca::params(2)), ("k1_whiten", Pca::params(1).whiten(true)), ("k3_no_whiten", Pca::params(3).whiten(false)), ("k0", Pca::params(0)), ("k0_whiten", Pca::params(0).whiten(true)), ("k_huge", Pca::params(usize::MAX))] {
         r.inst(name, |o| {
             let (x, _) = blobs::<f64>(60, 4, 3, 41);
             let q = pool::<f64>(4, Some(&x));
@@ -916,6 +987,10 @@ fn ica_points<F: Float>() -> Vec<(&'static str, linfa_ica::hyperparams::FastIcaP
         ("default_seeded", FastIca::params().random_state(10)),
         ("2comp_exp", FastIca::params().ncomponents(2).gfunc(GFunc::Exp).random_state(3).max_iter(100).tol(F::cast(1e-3))),
         ("2comp_logcosh1.5", FastIca::params().ncomponents(2).gfunc(GFunc::Logcosh(1.5)).random_state(usize::MAX >> 1)),
+        // Option<usize> parameters at Some(0) / Some(1) / Some(all), every GFunc variant, boundary numbers
+        ("random_state0_1comp_cube", FastIca::params().ncomponents(1).gfunc(GFunc::Cube).random_state(0).max_iter(1).tol(F::cast(0.0))),
+        ("ncomponents0_random_state_max", FastIca::params().ncomponents(0).random_state(usize::MAX).max_iter(0)),
+        ("3comp_all_logcosh2", FastIca::params().ncomponents(3).gfunc(GFunc::Logcosh(2.0)).random_state(1).max_iter(usize::MAX).tol(F::cast(1e30))),
     ]
 }
 
@@ -952,7 +1027,7 @@ fn ica_model(r: &mut Runner) {
         let obs = |m: &linfa_ica::fast_ica::FastIca<F>| ica_obs(m, &q);
         round_trip(o, &Spec::full(&obs), &m);
     }
-    for (n, p) in ica_points::<f64>() {
+    for (n, p) in ica_points::<f64>().into_iter().take(3) {
         r.inst(&format!("f64/{}", n), |o| go(o, p));
     }
     r.inst("f32/2comp_exp", |o| go::<f32>(o, ica_points().remove(1).1));
